@@ -31,6 +31,36 @@ CHECKS = {
             "Generated ADF x heuristic (all built-ins, Rand with generated seeds, four families of generated custom heuristics) x mode x back-end; result multiset compared with the definition, termination decided as a deterministic step bound through hook H1, sender drop checked with a non-blocking try_recv.",
             "Termination is a step bound (2(2n+4)(3^n+1) loop iterations), not a proof. Trusts oracle.rs.",
             "DESIGN.md §6 C05"),
+    "C06": ("exploration",
+            "stateful property-based testing (proptest op sequences) against a truth-table shadow model; invariant after every step",
+            "Generated operation sequences incl. re-materialisations on one shared store; after every step the whole public node table is checked to be reduced, ordered and duplicate-free, and handle equality is compared with truth-table equality over all issued handles; bridge conversions of generated ADFs are checked the same way.",
+            "Trusts bddmodel.rs (bitset truth tables) and sut::walk. node() is only called order-respecting.",
+            "DESIGN.md §6 C06"),
+    "C07": ("exploration",
+            "stateful property-based testing (proptest op sequences) against a truth-table shadow model",
+            "After every generated operation the result handle is walked under all 2^k assignments and compared with the function the operation names; old handles must keep their functions (checked whenever the node-table prefix changes, after re-materialisations and at the end).",
+            "Trusts bddmodel.rs and sut::walk; k<=6 (thorough 9) variables.",
+            "DESIGN.md §6 C07"),
+    "C13": ("exploration",
+            "property-based testing (proptest) of read-only queries against own DFS / truth-table computations",
+            "All query kinds on every handle of generated operation sequences and on acceptance conditions of generated ADFs are compared with independent computations (path DFS, truth-table counts, semantic support, cube cover/disjointness).",
+            "Memoised model counts are excluded in the default build (documented exception) and covered by C12's builds. Trusts bddmodel.rs.",
+            "DESIGN.md §6 C13"),
+    "C18": ("exploration",
+            "stateful property-based testing (proptest add/mode histories) against a 2^n sweep reference model",
+            "Generated histories of mode switches and nogood additions; the store's conclusions and closure are compared with a brute-force sweep over all total assignments (forced literals, conflicts, excluded set), for all total assignments and generated partial interpretations.",
+            "n<=6 (thorough 9) variables; the empty nogood is not generated (no caller produces it). Closure through hook H2.",
+            "DESIGN.md §6 C18"),
+    "C19": ("exploration",
+            "schedule-owning property-based testing (proptest): generated + exhaustively enumerated message-prefix cuts, plus real threads",
+            "The harness owns the schedule by interposing between producer channel and receiver channel; every observable interleaving is a prefix cut. Generated schedules incl. relay chains, exhaustive one/two-poll schedules for short streams, and a real-thread run checking the timing-independent prefix invariant.",
+            "Relies on the channel being unbounded (producer never blocks).",
+            "DESIGN.md §6 C19"),
+    "C20": ("exploration",
+            "exhaustive enumeration of all vectors up to length 7 (9) plus proptest-generated longer vectors",
+            "Every vector over {bot, top, undecided} up to the length bound is enumerated; counts, distinctness, decided positions and first element are checked for both iterators.",
+            "Exhaustive only up to the stated length.",
+            "DESIGN.md §6 C20"),
 }
 
 PENDING = {}
